@@ -47,8 +47,8 @@ from dulwich.object_store import (
     BaseObjectStore,
     DiskObjectStore,
 )
-from dulwich.objects import Commit, ObjectID, Tag, Tree
-from dulwich.refs import RefsContainer
+from dulwich.objects import Commit, ObjectID, Tag, Tree, valid_hexsha
+from dulwich.refs import SYMREF, Ref, RefsContainer
 
 if TYPE_CHECKING:
     from .config import Config
@@ -107,6 +107,45 @@ class GCStats:
     loose_objects_after: int = 0
 
 
+def _worktree_heads(refs_container: RefsContainer) -> list[ObjectID]:
+    """Return what HEAD names in the main and in every linked working tree.
+
+    A refs container only lists the HEAD of the working tree it was opened
+    for. The others are roots as well (as they are for git): a commit that is
+    checked out, detached, in another working tree must survive a collection
+    started from this one.
+    """
+    path = getattr(refs_container, "path", None)
+    if not isinstance(path, bytes):
+        return []
+    head_files = [os.path.join(path, b"HEAD")]
+    worktrees_dir = os.path.join(path, b"worktrees")
+    try:
+        names = sorted(os.listdir(worktrees_dir))
+    except OSError:
+        names = []
+    for name in names:
+        head_files.append(os.path.join(worktrees_dir, name, b"HEAD"))
+    heads: list[ObjectID] = []
+    for head_file in head_files:
+        try:
+            with open(head_file, "rb") as f:
+                contents = f.read().strip()
+        except FileNotFoundError:
+            continue
+        except (IsADirectoryError, NotADirectoryError):
+            continue
+        if contents.startswith(SYMREF):
+            try:
+                # Branches are shared by all working trees
+                contents = refs_container[Ref(contents[len(SYMREF) :].strip())]
+            except (KeyError, ValueError):
+                continue
+        if valid_hexsha(contents):
+            heads.append(ObjectID(contents))
+    return heads
+
+
 def find_reachable_objects(
     object_store: BaseObjectStore,
     refs_container: RefsContainer,
@@ -139,6 +178,12 @@ def find_reachable_objects(
             if progress:
                 progress(f"Warning: Broken ref {ref.decode('utf-8', 'replace')}")
             continue
+
+    # HEAD of the other working trees
+    for sha in _worktree_heads(refs_container):
+        if sha not in reachable:
+            pending.append(sha)
+            reachable.add(sha)
 
     # TODO: Add reflog support when reflog functionality is available
 
